@@ -477,7 +477,7 @@ fn logistic_loss<F: Float, A: Data<Elem = F>>(
 ) -> F {
     let n_features = x.shape()[1];
     let (params, intercept) = convert_params(n_features, w);
-    let yz = x.dot(&params.into_shape((params.len(), 1)).unwrap()) + intercept;
+    let yz = x.dot(&params.insert_axis(Axis(1))) + intercept;
     let len = yz.len();
     let mut yz = yz.into_shape(len).unwrap() * y;
     yz.mapv_inplace(log_logistic);
@@ -493,7 +493,7 @@ fn logistic_grad<F: Float, A: Data<Elem = F>>(
 ) -> Array1<F> {
     let n_features = x.shape()[1];
     let (params, intercept) = convert_params(n_features, w);
-    let yz = x.dot(&params.into_shape((params.len(), 1)).unwrap()) + intercept;
+    let yz = x.dot(&params.insert_axis(Axis(1))) + intercept;
     let len = yz.len();
     let mut yz = yz.into_shape(len).unwrap() * y;
     yz.mapv_inplace(logistic);
